@@ -193,12 +193,15 @@ pub fn eval_case_against<'a>(
                         json!({"part": "stm", "committed": committed.iter().map(|l| l.hex()).collect::<Vec<_>>(), "case": case.to_json(), "made_by": label.to_string()}),
                     )
                 });
-            } else if !label.is_honest() && rep.extras.get("stm_sample_accepted_mutant").is_none() {
+            } else if !label.is_honest() && committed.len() == 5 && rep.extras.get("stm_sample_accepted_mutant").is_none() {
                 rep.extra("stm_sample_accepted_mutant", json!({"made_by": label.to_string(), "n": committed.len(), "case": case.to_json()}));
             }
         }
         Verdict::Rejected => {
             rep.outcome("stm:rejected");
+            if !label.is_honest() && committed.len() == 5 && rep.extras.get("stm_sample_rejected_mutant").is_none() {
+                rep.extra("stm_sample_rejected_mutant", json!({"made_by": label.to_string(), "n": committed.len(), "case": case.to_json()}));
+            }
             if count_distinct {
                 rep.nontrivial(&("stm", committed, case));
             }
@@ -290,7 +293,7 @@ pub fn honest_sweep(n: usize) -> Report {
                 }
             }
         }
-        if rep.samples.is_empty() && idx.len() == 2 && n >= 5 {
+        if n == 5 && idx == [1, 3] {
             rep.sample(json!({"part": "stm", "kind": "honest batch path", "n": n, "case": case.to_json()}));
         }
     }
